@@ -21,7 +21,7 @@ RULE = ("cases = (maze kind in plain/targeted/solved) x (connection structure fr
         "endpoints, ul, values, paths)")
 ASSUMPTIONS = ["matplotlib: imshow stores the array it is given, Line2D/Quiver store the vertex data they are given (read back on every case); "
                "rendering below the array / vertex data is not modelled, only probed through cmap(norm(array)) for wall = black",
-               "node values are float64, finite, not exactly -1.0 (the background value) - needed only to classify pixels unambiguously",
+               "node values are float64 and finite; -1.0 (also the background value) is a legal cell value and is told apart from the background by position (top row / left column) when pixels are classified for the model comparison",
                "to_ascii flags outside the defaults are mirrored, not demanded: the path-less branch does not forward show_solution",
                "the as_ascii part of the model covers in-grid solutions only (C10 owns as_pixels / as_ascii in general)"]
 TRUSTED = ["find_shortest_path is external to C20 (C02): the path MazePlot adds for a targeted maze is taken as observed and checked by the "
@@ -72,11 +72,13 @@ def _rand_cells(rng, rows, cols, n, wild=False):
 
 
 def _gen_values(rng, rows, cols):
-    mode = rng.choice(["pos", "mixed", "ints", "ints"])
+    mode = rng.choice(["pos", "mixed", "ints", "ints", "signs", "wholes"])
     if mode == "pos": v = [[rng.random() for _ in range(cols)] for _ in range(rows)]
     elif mode == "mixed": v = [[rng.uniform(-2, 2) for _ in range(cols)] for _ in range(rows)]
+    elif mode == "signs": v = [[rng.choice([-1.0, 1.0]) for _ in range(cols)] for _ in range(rows)]       # +-1 labels: -1.0 is also the image's background value
+    elif mode == "wholes": v = [[float(rng.randint(-2, 2)) for _ in range(cols)] for _ in range(rows)]
     else: v = [[float(rng.randint(0, 3)) for _ in range(cols)] for _ in range(rows)]
-    v[0][0] = 0.25; v[-1][-1] = 0.75          # never degenerate (vmin < vmax), never -1.0
+    v[0][0] = 0.25; v[-1][-1] = 0.75          # never degenerate (vmin < vmax)
     return [[float(x).hex() for x in row] for row in v], mode
 
 
@@ -345,6 +347,10 @@ def classify(case, img) -> list[list[int]]:
     else:
         out[img == -1.0] = W_
         for v, i in ids.items(): out[img == v] = i
+        if -1.0 in ids:
+            # -1.0 is a legal cell value AND the background value; with values supplied the background survives only on the top row and
+            # the left column of the image (every other wall pixel is NaN), so position tells the two apart
+            out[0, :][img[0, :] == -1.0] = W_; out[:, 0][img[:, 0] == -1.0] = W_
     out[np.isnan(img)] = NAN_
     return out.tolist()
 
